@@ -105,7 +105,7 @@ class C17(core.Check):
                                        'neg:file-label/include-after-local-label', 'neg:file-label/include-after-org',
                                        'neg:file-label/include-nested', 'class:symbol-spelled-like-a-word-of-the-include-line',
                                        'symbol-from:define', 'symbol-from:config', 'symbol-from:cmdline',
-                                       'class:file-names-differing-in-letter-case-only', 'dirs:same-directory-under-another-spelling', 'neg:global-defined-in-two-files/same-line-number', 'neg:global-defined-in-two-files/other-line-number', 'neg:main-file-again/relative', 'neg:main-file-again/absolute', 'neg:main-file-again/symlinked-directory']}
+                                       'class:file-names-differing-in-letter-case-only', 'dirs:same-directory-under-another-spelling', 'neg:global-defined-in-two-files/same-line-number', 'class:relative-search-directory-with-the-main-file-elsewhere', 'neg:file-only-in-the-working-directory', 'neg:ambiguous-name/one-copy-is-the-including-file', 'neg:global-defined-in-two-files/other-line-number', 'neg:main-file-again/relative', 'neg:main-file-again/absolute', 'neg:main-file-again/symlinked-directory']}
 
     def metamorphic(self, rng, nest_p=0.5, prefer_mute=0):
         g = None
@@ -340,6 +340,50 @@ class C17(core.Check):
                            'meta': {'class': 'metamorphic', 'image': None, 'kind': 'ACCEPT', 'includes': ['a.asm']},
                            'tags': ['class:include-in-uncompiled-branch', 'dirs:1', 'nesting:1']}
 
+    def relative_search_dir_cases(self):
+        """a search directory given as a relative path is relative to the working directory, wherever the main file lies"""
+        isa = gen_prog.layout_isa(16)
+        fn, itext = isamod.render_isa(isa, 'json')
+        a_txt = 'in_a:\n.byte $A1, $A2\n'
+        for k, (main_dir, inc_dirs, where) in enumerate([('src', ['lib'], 'lib'), ('src', ['./lib'], 'lib'), ('src/deep', ['lib', 'other'], 'other'),
+                                                         ('src', ['lib/sub'], 'lib/sub'), ('prog', ['.'], '.')]):
+            main = ['.byte 1', '#include "a.asm"', '.byte 2', '.2byte in_a']
+            flat = ['.byte 1', a_txt.strip(), '.byte 2', '.2byte in_a']
+            files = {fn: itext, main_dir + '/p.asm': '\n'.join(main) + '\n', (where + '/' if where != '.' else '') + 'a.asm': a_txt,
+                     # a decoy below the main file's directory: found only if the search directory were taken relative to that
+                     main_dir + '/' + (inc_dirs[0] + '/' if inc_dirs[0] != '.' else 'decoy/') + 'ghost.asm': '.byte $66\n'}
+            argv = ['compile', '-c', fn, main_dir + '/p.asm', '-o', 'out.bin'] + [x for d_ in inc_dirs for x in ('-I', d_)]
+            yield {'runs': [{'files': files, 'argv': argv, 'probes': ['steps', 'files'], 'step_limit': 500000},
+                            {'files': {fn: itext, 'p.asm': '\n'.join(flat) + '\n'}, 'argv': ['compile', '-c', fn, 'p.asm', '-o', 'out.bin'],
+                             'probes': ['steps'], 'step_limit': 500000}],
+                   'meta': {'class': 'metamorphic', 'image': None, 'kind': 'ACCEPT', 'includes': ['a.asm']},
+                   'tags': ['class:relative-search-directory-with-the-main-file-elsewhere', 'dirs:' + str(len(inc_dirs)), 'nesting:1']}
+            if inc_dirs[0] != '.':
+                neg = dict(files)
+                neg[main_dir + '/p.asm'] = '.byte 1\n#include "ghost.asm"\n'
+                yield {'runs': [{'files': neg, 'argv': argv, 'probes': ['steps', 'files'], 'step_limit': 500000}],
+                       'meta': {'class': 'negative', 'kind': 'REJECT', 'why': 'file lies in no search directory (only below the main file\'s directory)', 'image': None},
+                       'tags': ['neg:missing-file', 'neg:file-only-below-the-main-file\'s-directory']}
+                # ... and a file that lies in the working directory only, which is no search directory here
+                neg2 = dict(files)
+                neg2['root_only.asm'] = '.byte $77\n'
+                neg2[main_dir + '/p.asm'] = '.byte 1\n#include "root_only.asm"\n'
+                yield {'runs': [{'files': neg2, 'argv': argv, 'probes': ['steps', 'files'], 'step_limit': 500000}],
+                       'meta': {'class': 'negative', 'kind': 'REJECT', 'why': 'file lies in the working directory only, which is no search directory', 'image': None},
+                       'tags': ['neg:missing-file', 'neg:file-only-in-the-working-directory']}
+
+    def own_name_twice_cases(self):
+        """a name that two search directories hold is ambiguous also when one of the two files is the including file itself"""
+        isa = gen_prog.layout_isa(16)
+        fn, itext = isamod.render_isa(isa, 'json')
+        for k, (main_dir, inc_dir) in enumerate((('proj', 'common'), ('.', 'lib'), ('proj', 'proj/sub'), ('a/b', 'a'))):
+            mp = (main_dir + '/' if main_dir != '.' else '') + 'board.asm'
+            files = {fn: itext, mp: '.byte 1\n#include "board.asm"\n.byte 2\n', inc_dir + '/board.asm': '.byte $AA, $BB\n'}
+            argv = ['compile', '-c', fn, mp, '-o', 'out.bin', '-I', inc_dir]
+            yield {'runs': [{'files': files, 'argv': argv, 'probes': ['steps', 'files'], 'step_limit': 500000, 'cpu_s': 10}],
+                   'meta': {'class': 'negative', 'kind': 'REJECT', 'why': 'name held by two search directories, one copy being the including file', 'image': None},
+                   'tags': ['neg:ambiguous-name', 'neg:ambiguous-name/one-copy-is-the-including-file']}
+
     def global_twice_cases(self):
         """a global name defined in the includer and in an included file (or in two included files) is defined twice, as it
         would be with the text pasted in place - on whichever lines of their files the two definitions stand"""
@@ -464,6 +508,8 @@ class C17(core.Check):
         yield from self.symbol_name_cases()
         yield from self.case_twin_file_cases()
         yield from self.global_twice_cases()
+        yield from self.own_name_twice_cases()
+        yield from self.relative_search_dir_cases()
         negs = ['included-twice', 'transitively-twice', 'self-include', 'missing-file', 'ambiguous-name']
         for i in range(25 if tier == 'quick' else 100):
             rng = core.rng_for(0, self.pid, 'neg', i)
